@@ -201,6 +201,13 @@ func (n *LocalNode) RequestToLeave(leaver chord.VNode) error {
 		n.logger.Warn("Rejecting leave request because current state is not Active", zap.String("state", curr.String()))
 		return chord.ErrLeaveInvalidState
 	}
+	// only our immediate predecessor may hand its keys to us: if a node has joined between the
+	// leaver and us, the leaver's successor pointer is outdated and it has to retry with its new successor
+	if pre := n.getPredecessor(); pre == nil || pre.ID() != leaver.ID() {
+		n.logger.Warn("Rejecting leave request because leaver is not our predecessor", zap.Object("leaver", leaver.Identity()))
+		n.state.Set(chord.Active)
+		return chord.ErrLeaveInvalidState
+	}
 	return nil
 }
 
